@@ -37,6 +37,12 @@ pub trait System: Sync {
     fn same(&self, _a: &Self::State, _b: &Self::State) -> bool {
         true
     }
+    /// Optional finer (more expensive) fingerprint, used only to index key buckets that have
+    /// grown long: when the oracle's model state stops tracking the real object (a broken
+    /// implementation), thousands of distinct real states can share one key.
+    fn fine_key(&self, _s: &Self::State) -> Option<u128> {
+        None
+    }
     fn n_classes(&self) -> usize {
         1
     }
@@ -143,13 +149,22 @@ struct Local<S: System> {
     found: Vec<(u32, S::Action, Violation)>,
 }
 
+type Big<S> = HashMap<<S as System>::Key, HashMap<u128, Vec<u32>>>;
+const BIG_BUCKET: usize = 16;
+
 fn lookup<S: System>(
     sys: &S,
     map: &HashMap<S::Key, u32>,
+    big: &Big<S>,
     nodes: &[Node<S>],
     key: &S::Key,
     st: &S::State,
 ) -> bool {
+    if let Some(sub) = big.get(key) {
+        if let Some(f) = sys.fine_key(st) {
+            return sub.get(&f).map_or(false, |ids| ids.iter().any(|&id| sys.same(&nodes[id as usize].state, st)));
+        }
+    }
     if let Some(&first) = map.get(key) {
         let mut id = first;
         while id != u32::MAX {
@@ -232,6 +247,7 @@ pub fn explore<S: System>(sys: &S, limits: &Limits) -> Outcome<S> {
     let t0 = Instant::now();
     let mut nodes: Vec<Node<S>> = Vec::new();
     let mut map: HashMap<S::Key, u32> = HashMap::new();
+    let mut big: Big<S> = HashMap::new();
     let init = sys.init();
     map.insert(sys.key(&init), 0);
     nodes.push(Node {
@@ -277,6 +293,7 @@ pub fn explore<S: System>(sys: &S, limits: &Limits) -> Outcome<S> {
                 .collect();
             let nodes_ref = &nodes;
             let map_ref = &map;
+            let big_ref = &big;
             let obs_cap = limits.obs_cap;
             let locals: Vec<Local<S>> = ranges
                 .par_iter()
@@ -289,7 +306,7 @@ pub fn explore<S: System>(sys: &S, limits: &Limits) -> Outcome<S> {
                         obs: HashSet::new(),
                         found: Vec::new(),
                     };
-                    let mut local_seen: HashMap<S::Key, Vec<usize>> = HashMap::new();
+                    let mut local_seen: HashMap<(S::Key, u128), Vec<usize>> = HashMap::new();
                     let mut acts = Vec::new();
                     for id in a..b {
                         let st = &nodes_ref[id].state;
@@ -333,10 +350,11 @@ pub fn explore<S: System>(sys: &S, limits: &Limits) -> Outcome<S> {
                                 }
                             };
                             let key = sys.key(&next);
-                            if lookup(sys, map_ref, nodes_ref, &key, &next) {
+                            if lookup(sys, map_ref, big_ref, nodes_ref, &key, &next) {
                                 continue;
                             }
-                            let e = local_seen.entry(key.clone()).or_default();
+                            let fine = if big_ref.contains_key(&key) { sys.fine_key(&next).unwrap_or(0) } else { 0 };
+                            let e = local_seen.entry((key.clone(), fine)).or_default();
                             if e.iter().any(|&i| sys.same(&l.cands[i].state, &next)) {
                                 continue;
                             }
@@ -369,7 +387,16 @@ pub fn explore<S: System>(sys: &S, limits: &Limits) -> Outcome<S> {
                 }
                 for (parent, act, v) in l.found {
                     match found.get_mut(&v.signature) {
-                        Some(e) => e.3 += 1,
+                        Some(e) => {
+                            e.3 += 1;
+                            // prefer a representative that still carries its detail message and,
+                            // among those, the shallowest one
+                            if e.0.detail.is_empty() && !v.detail.is_empty() {
+                                e.0 = v;
+                                e.1 = parent;
+                                e.2 = act;
+                            }
+                        }
                         None => {
                             found.insert(v.signature.clone(), (v, parent, act, 1));
                         }
@@ -390,6 +417,29 @@ pub fn explore<S: System>(sys: &S, limits: &Limits) -> Outcome<S> {
                                 chain: u32::MAX,
                             });
                         }
+                        Some(_) if big.contains_key(&c.key) && sys.fine_key(&c.state).is_some() => {
+                            let f = sys.fine_key(&c.state).unwrap();
+                            let sub = big.get_mut(&c.key).unwrap();
+                            let ids = sub.entry(f).or_default();
+                            if !ids.iter().any(|&id| sys.same(&nodes[id as usize].state, &c.state)) {
+                                let nid = nodes.len() as u32;
+                                ids.push(nid);
+                                // keep the chain intact as well (prepend after the head)
+                                let head = map[&c.key];
+                                let next = nodes[head as usize].chain;
+                                nodes[head as usize].chain = nid;
+                                nodes.push(Node {
+                                    state: c.state,
+                                    parent: c.parent,
+                                    action: Some(c.action),
+                                    obs: c.obs,
+                                    depth: d,
+                                    chain: next,
+                                });
+                                let total: usize = sub.values().map(|v| v.len()).sum();
+                                max_bucket = max_bucket.max(total);
+                            }
+                        }
                         Some(first) => {
                             let mut id = first;
                             let mut last = first;
@@ -408,6 +458,7 @@ pub fn explore<S: System>(sys: &S, limits: &Limits) -> Outcome<S> {
                                 let nid = nodes.len() as u32;
                                 nodes[last as usize].chain = nid;
                                 max_bucket = max_bucket.max(len + 1);
+                                let key_for_big = c.key.clone();
                                 nodes.push(Node {
                                     state: c.state,
                                     parent: c.parent,
@@ -416,6 +467,17 @@ pub fn explore<S: System>(sys: &S, limits: &Limits) -> Outcome<S> {
                                     depth: d,
                                     chain: u32::MAX,
                                 });
+                                if len + 1 > BIG_BUCKET && sys.fine_key(&nodes[nid as usize].state).is_some() {
+                                    // index this long bucket by the fine fingerprint
+                                    let mut sub: HashMap<u128, Vec<u32>> = HashMap::new();
+                                    let mut id = first;
+                                    while id != u32::MAX {
+                                        let f = sys.fine_key(&nodes[id as usize].state).unwrap();
+                                        sub.entry(f).or_default().push(id);
+                                        id = nodes[id as usize].chain;
+                                    }
+                                    big.insert(key_for_big, sub);
+                                }
                             }
                         }
                     }
